@@ -229,8 +229,11 @@ def lu_requests(rng, count):
         N = (3, 2, 1)[k % 3]
         st = styles[(k // 3) % 4]
         A = _rand_matrix(rng, NS[N], st)
-        reqs.append(("stdet", N, A, {"zero-diagonal": "row-exchange", "permuted-dominant": "row-exchange",
-                                     "dominant": "no-exchange", "random": "random"}[st]))
+        # det: only the styles whose need for a row exchange is known by construction, so that the violation
+        # key (dimension + class) is stable from one seed to the next
+        if st != "random":
+            reqs.append(("stdet", N, A, {"zero-diagonal": "row-exchange", "permuted-dominant": "row-exchange",
+                                         "dominant": "no-exchange"}[st]))
         reqs.append(("stinv", N, A))
     # singular: det = 0 exactly (a zero row), invert is not called
     reqs.append(("stdet", 2, [[1., 2., 3., 4.], [0., 0., 0., 0.], [2., 1., 0., 1.], [1., 1., 1., 3.]], "singular"))
